@@ -6,6 +6,7 @@ from fractions import Fraction as F
 
 from harness import core as C
 from harness.oracle import PF
+from harness import oracle as O
 
 LEFT, RIGHT = "left", "right"
 SIDES = [LEFT, RIGHT]
@@ -69,14 +70,63 @@ def flav(rng, leafs_have_nan=False, dom="float"):
             # list, or one list object reused by every call; collection containers kept across aggregations
             "closedobj": rng.choice(["literal", "literal", "built", "pickle"]),
             "wherearg": rng.choice(["tuple", "list", "reuse"]),
-            "persist": rng.random() < 0.5}
+            "persist": rng.random() < 0.5,
+            # operators, or the named methods (add, rsubtract, logical_rxor, negate, quantiles ...) they are aliases of
+            "opform": rng.choice(["operator", "operator", "method"])}
 
 
 def has_nan(leaf):
     return any(v is None for v in leaf[1])
 
 
+def _step_points(prog):
+    pts = []
+    for st in prog:
+        k = st["s"]
+        if k == "from_values":
+            pts += [a for a, _ in st["rows"]]
+        elif k == "layer":
+            if st["mode"] == "scalar":
+                pts += [st["start"], st["end"]]
+            else:
+                for a, b, _ in st["triples"]:
+                    pts += [a, b]
+        elif k in ("shift", "diff"):
+            pts.append(st["d"])
+    return [F(p) for p in pts if p is not None]
+
+
+# statement / query kinds the domain flavours are known to carry (lengths come back as Timedeltas, labels as Timestamps)
+DOM_OK_STMTS = {"new", "from_values", "layer", "read", "un", "bin", "clip", "mask", "maskt", "fills", "fillg", "shift", "diff", "agg", "query"}
+DOM_OK_Q = {"limit", "sample", "nsteps", "points", "closed", "integral", "mean", "value_sums", "agg", "vir", "min", "max", "slicer",
+            "cov", "corr", "rolling", "identical", "bool", "var", "median", "mode", "ecdf", "percentile", "fractile", "hist"}
+
+
+def lift_domain(rng, prog, fl):
+    """a quarter of the float-domain cases are replayed in another domain type instead (the per-property quantifiers
+    include int, naive / tz-aware Timestamp and Timedelta domains): integer labels when every step point is an
+    integer, datetime-like ones when every step point is a multiple of a quarter of the unit"""
+    if fl.get("dom", "float") != "float" or rng.random() > 0.25:
+        return
+    if any(st["s"] not in DOM_OK_STMTS or (st["s"] == "query" and st["q"] not in DOM_OK_Q) for st in prog):
+        return
+    pts = _step_points(prog)
+    if any((4 * p).denominator != 1 for p in pts):
+        return
+    cands = ["dt", "tz", "dst", "utc", "td"]
+    if all(p.denominator == 1 for p in pts):
+        cands += ["int", "int", "int"]
+    fl["dom"] = rng.choice(cands)
+
+
 def mk(cid, prog, fl, mode="exact", tags=()):
+    if not any(t in DOMS for t in tags):          # (the C17 cases name their domain themselves)
+        lift_domain(random.Random(C.prog_hash(prog)), prog, fl)
+        if fl.get("dom", "float") not in ("float", "int"):
+            mode = "tol"                          # lengths and integrals travel through nanosecond Timedeltas there
+            tags = list(tags) + ["dom-" + fl["dom"]]
+        elif fl.get("dom") == "int":
+            tags = list(tags) + ["dom-int"]
     return {"id": cid, "prog": prog, "flav": fl, "mode": mode, "tags": list(tags)}
 
 
@@ -493,6 +543,7 @@ def gen_C09(rng, tier):
         qs = [C.query(0, "ecdf", side="right", ys=ys), C.query(0, "ecdf", side="left", ys=ys),
               C.query(0, "percentile", ps=ps), C.query(0, "fractile", ps=[p / 100 for p in ps]),
               C.query(0, "median"), C.query(0, "mode"), C.query(0, "value_sums"),
+              C.query(0, "fractile", ps=[F(i, 4) for i in range(1, 4)]) if pow2 else C.query(0, "mode"),
               C.query(0, "describe", lo=None, hi=None, ps=[F(25), F(50), F(75)]) if pow2 else C.query(0, "median"),
               C.query(0, "describe", lo=pts[0], hi=pts[-1], ps=[F(0), F(100)]) if pow2 else C.query(0, "mode"),
               C.query(0, "hist", bins=bins, closed=rng.choice(SIDES), stat=hstat)]
@@ -1037,6 +1088,28 @@ def rand_intervals(rng, leaf, tiling=False):
 SSTATS = ["mean", "integral", "median", "mode", "min", "max"]
 
 
+def median_is_float_safe(leaf, closed, ivs):
+    """False when, on some slice, 50% is exactly a cumulative-share boundary while the slice's total length is not a power
+    of two: binary64 cannot represent the shares there and rounding - not the property - decides which neighbour the code
+    returns (section 3.4 of DESIGN.md)"""
+    f = PF(list(leaf[0]), list(leaf[1]), closed)
+    for a, b in ivs:
+        if not a < b:
+            continue
+        g = O.restrict(f, a, b)
+        if not O.finite_defined(g):
+            continue
+        t = O.total_len(g)
+        if t.numerator & (t.numerator - 1) == 0 and t.denominator & (t.denominator - 1) == 0:
+            continue
+        cum = F(0)
+        for _, ln in O.value_sums(g):
+            cum += ln
+            if cum * 2 == t:
+                return False
+    return True
+
+
 def gen_C11(rng, tier):
     n = 1200 if tier == "quick" else 10000
     small = canonical_leaves([F(0), F(1), F(2)], [None, F(0), F(1), F(2)])
@@ -1050,12 +1123,17 @@ def gen_C11(rng, tier):
             warmup(rng, prog, 0, leaf_points(f), qset=TOL_WARM)
         if k % 2 == 0:
             ivs = rand_intervals(rng, f, tiling=rng.random() < 0.4)
+            safe = median_is_float_safe(f, c, ivs) and not any(st_["s"] == "layer" for st_ in prog)
             for st in rng.sample(SSTATS, 3):
+                if st == "median" and not safe:
+                    st = "mode"
                 prog.append(C.query(0, "slicer", stat=st, icl=icl, ivs=ivs))
             tag = "stat"
         else:
             ivs = rand_intervals(rng, f, tiling=True)
             st = rng.choice(["mean", "max", "min", "median", "integral"])
+            if st == "median" and (not median_is_float_safe(f, c, ivs) or any(st_["s"] == "layer" for st_ in prog)):
+                st = "mean"
             prog.append(C.resample(1, 0, st, rng.choice(["left", "right", "neither"]), ivs))
             prog += observe_all(1, leaf_points(f, [a for a, _ in ivs] + [b for _, b in ivs]))
             tag = "resample"
